@@ -48,6 +48,7 @@ def run(ctx):
     malsec.dzkp_validate_path(ctx, facts, "PATH-verdict")
     malsec.reveal_impls(ctx, facts, "WHO-reveal")
     malsec.multiply_impls(ctx, facts, "WHO-multiply")
+    malsec.field_transport(ctx, facts, "FIELDS-block")
     malsec.batch_store_grows(ctx, facts, "STORE-grow")
     malsec.segment_packing(ctx, facts, "PACK-slots")
     malsec.drop_guard(ctx, facts, "WHO-drop")
